@@ -91,6 +91,21 @@ func main() {
 		}
 	}
 	switch cmd {
+	case "annotate":
+		// rewrite the mirror contract files with the current variable tables (run when contracts are written or revised)
+		var files []string
+		for _, sub := range []string{"root", "keeper", "types"} {
+			files = append(files, filepath.Join(*verif, "contracts", sub+"_contracts_verif.go"))
+		}
+		if p.contractsSource != "mirror(/verif/contracts)" {
+			fmt.Fprintln(os.Stderr, "annotate works on the mirror: set GOVC_CONTRACTS=mirror")
+			os.Exit(2)
+		}
+		if err := p.annotate(files); err != nil {
+			fmt.Fprintln(os.Stderr, err)
+			os.Exit(2)
+		}
+		return
 	case "list":
 		for _, n := range sortedKeys(p.contracts) {
 			c := p.contracts[n]
@@ -353,6 +368,7 @@ func checkProperty(p *Program, prop, tier string, timeoutS, workers int, start t
 	replayDir := filepath.Join(p.verif, "replays", prop)
 	os.RemoveAll(replayDir)
 	nObl, nDis, nCover, nVac := 0, 0, 0, 0
+	nTwo := 0 // discharged obligations on which a second, different solver returned the same verdict (thorough tier)
 	var violations, known []string
 	oorSeen := map[string]bool{}
 	var samples []map[string]interface{}
@@ -407,6 +423,9 @@ func checkProperty(p *Program, prop, tier string, timeoutS, workers int, start t
 		slows = append(slows, slow{oc.Obl.Name, oc.Res.Seconds})
 		if oc.Status == "discharged" {
 			nDis++
+			if oc.Res.Second != "" {
+				nTwo++
+			}
 			if len(samples) < 4 {
 				samples = append(samples, map[string]interface{}{"obligation": oc.Obl.Name, "kind": oc.Obl.Kind, "clause": oc.Obl.Src, "goal_smt": truncate(oc.Obl.Goal.S, 400), "solver": oc.Res.Solver, "seconds": oc.Res.Seconds, "at": p.posString(oc.Obl.Pos)})
 			}
@@ -460,6 +479,7 @@ func checkProperty(p *Program, prop, tier string, timeoutS, workers int, start t
 			"obligations":              nObl - len(known),
 			"discharged":               nDis,
 			"obligations_failing_as_known_findings": len(known),
+			"discharged_confirmed_by_a_second_solver": nTwo,
 			"checker_cmd":              fmt.Sprintf("/verif/bin/govc check -p %s -tier %s (VCs from go/ssa of /repo working tree; solvers z3-new 5.1.0, z3 4.8.12, cvc5 1.0.3; timeout %ds)", prop, tier, timeoutS),
 			"trusted_base":             sortedKeys(trusted),
 			"functions_under_contract": funcsUnder,
